@@ -22,7 +22,7 @@ class ArbiterWorld(World):
     fault_kinds = ("byzantine_cycle", "lock_hold", "early_release", "cyc_without_stb",
                    "wait_state", "err_response", "rty_response", "stall", "spontaneous_response",
                    "contention", "rejected_add", "elaborated_while_still_being_populated",
-                   "second_instance_in_process")
+                   "second_instance_in_process", "domain_reset")
     assumptions = (
         "Amaranth's Python RTL simulator executes the elaborated netlist faithfully",
         "bounded liveness is asserted only in protocol mode (every owner eventually releases); "
@@ -68,7 +68,8 @@ class ArbiterWorld(World):
         return {"aw": aw, "dw": dw, "g": g, "feats": sorted(feats), "intrs": intrs, "mode": mode,
                 "feats_as": rng.choice(["str", "str", "enum"]),
                 "mid_elab": rng.range(1, n) if (n > 1 and rng.chance(0.12)) else None,
-                "decoy": int(rng.chance(0.1))}
+                "decoy": int(rng.chance(0.1)),
+                "reset_at": rng.range(5, 60) if rng.chance(0.15) else None}
 
     def gen_ops(self, rng, config, prop):
         ops = []
@@ -153,8 +154,10 @@ class ArbiterWorld(World):
         if n == 0 or n > 8:
             from simkit.core import Refused
             raise Refused("no initiators")
-        sim = hw.build_sim(hw.make_top(dut))
+        top, rst = hw.make_top_with_reset(dut)
+        sim = hw.build_sim(top)
         b = dut.bus
+        reset_at = config.get("reset_at")
         tagbits = 3
         tagmask = (1 << tagbits) - 1
         c08 = "C08" in props
@@ -444,6 +447,17 @@ class ArbiterWorld(World):
                 else:
                     byz_i += 1
                 prev_owner, prev_busy, prev_req = owner, busy, req
+                if reset_at is not None and t == reset_at:
+                    # fault: the clock domain is reset for one cycle. Every per-cycle invariant
+                    # keeps being checked; continuity of ownership across the reset edge is not
+                    # required (the arbiter restarts from its initial state).
+                    p.set(rst, 1)
+                    prev_owner = prev_busy = prev_req = None
+                    waiting = [None] * n
+                    stats.fault("domain_reset")
+                elif reset_at is not None and t == reset_at + 1:
+                    p.set(rst, 0)
+                    prev_owner = prev_busy = prev_req = None
                 t += 1
                 await ctx.tick()
             stats.cycles += t
